@@ -10,11 +10,12 @@ PROP = "C04"
 PROP_FILES = sorted(os.path.relpath(p, common.COQ) for p in glob.glob(os.path.join(common.COQ, "props", "C04*.v")))
 TRUSTED = [
     "the loader mirrors coq/model/Parse_*.v (Musepack, WavPack, SMF, VComment, OggVorbis/Opus/Speex/Theora Info on Model.Ogg.page_parse, _APEv2Data, ID3Header, MP4 Atom/Atoms, "
-    "TrueAudio/MonkeysAudio/OptimFROG headers) are hand-written, tied to /repo by outcome-class + decoded-field correspondence on the malformed stream and field sweeps",
+    "TrueAudio/MonkeysAudio/OptimFROG headers, DSF chunks + metadata pointer, AC3Info over BitReader, AIFF.load's IFF chunk walk + AIFFInfo/read_float) are hand-written, tied to /repo by outcome-class + decoded-field correspondence on the malformed stream and field sweeps",
     "the file object of the mirrors is CPython's BytesIO (read/seek/tell incl. ValueError on negative absolute seek, clamping of relative seeks, OverflowError beyond "
     "ssize_t) -- Model.Parse_base; real files differ (negative seek is an OSError, which every mirrored loader converts to its error class)",
     "c04_input (theorem hypothesis): the input is a list of bytes (0..255) shorter than 2^62; Python floats, text decoding with errors='replace' and AtomError "
-    "(represented by EAssert) are outside Base.Py: the float/utf-8 steps that cannot raise are not modelled, the one float conversion that can (SMF) is",
+    "(represented by EAssert) and BitReaderError (represented by ENotImpl in Parse_ac3) are outside Base.Py; the MutagenError subclasses that callers catch (InvalidChunk, EmptyChunk, "
+    "ID3NoHeaderError, and KeyError of IFF __getitem__) are values (None / -1 / 0) in Parse_aiff and Parse_dsf; read_float's binary64 arithmetic is explicit integer arithmetic: the float/utf-8 steps that cannot raise are not modelled, the one float conversion that can (SMF) is",
     "parsers without a model are explored by the direct oracle only -- a search, not a proof",
 ]
 RULE = ("correspondence: for every loader with a Coq mirror (MODELLED) the fuzzer's own malformed stream (seeds()/mutate over the loader's own samples, "
@@ -32,7 +33,8 @@ RULE = ("correspondence: for every loader with a Coq mirror (MODELLED) the fuzze
 MANIFEST = {
     "text": "partial: totality theorems (every byte string yields Ok or a MutagenError-class rejection, fuel never exhausted, fuel a*len+b) for the exception-faithful "
             "mirrors of MusepackInfo, WavPackInfo, SMF, VComment.load, OggPage + OggVorbis/Opus/Speex/Theora Info (under OggFileType.load's mapping), _APEv2Data, ID3Header, MP4 Atom/Atoms "
-            "(under MP4.load's mapping) and the TrueAudio/MonkeysAudio/OptimFROG header readers; all other parsers, the tag-level parsers behind these headers, and the "
+            "(under MP4.load's mapping), the TrueAudio/MonkeysAudio/OptimFROG header readers, DSF.load up to the ID3 header, AC3Info (AC-3 / E-AC-3 headers through BitReader) "
+            "and AIFF.load's chunk walk + AIFFInfo (without the ID3 parse); all other parsers, the tag-level parsers behind these headers, and the "
             "open-save-delete contract as a whole, by structured + mutation fuzzing with a watchdog over all openers",
     "note": "Not covered by theorem: parsers without an exception-faithful model in this commit (listed in the evidence as families_without_theorem); they are "
             "explored by the direct oracle, which is a search. Allocation is bounded by construction in the model (reads return at most what the file holds); "
@@ -167,6 +169,7 @@ OPENER_THEOREMS = {
     "MP3": ["ID3Header", "ID3determine_bpi"], "EasyMP3": ["ID3Header", "ID3determine_bpi"], "ID3FileType": ["ID3Header", "ID3determine_bpi"],
     "EasyID3FileType": ["ID3Header", "ID3determine_bpi"], "ID3": ["ID3Header", "ID3determine_bpi"], "EasyID3": ["ID3Header", "ID3determine_bpi"],
     "MP4": ["MP4Atoms"], "EasyMP4": ["MP4Atoms"],
+    "DSF": ["DSF", "ID3Header", "ID3determine_bpi"], "AC3": ["AC3"], "AIFF": ["AIFF", "ID3Header", "ID3determine_bpi"],
 }
 OPENER_THEOREMS = {k: v for k, v in OPENER_THEOREMS.items() if v}
 
@@ -375,7 +378,7 @@ def impl_outcome(L, data, limit_s=5.0, retry=True):
 
 
 def model_outcome(ctx, name, L, data):
-    r = ctx.model.call("c04_load", name, common.hx(data))
+    r = ctx.model.call(L.get("cmd", "c04_load"), name, common.hx(data))
     if r.startswith("ok "):
         body = r[3:].strip()[1:-1]
         lst = [common.zp(x) for x in body.split(",") if x]
